@@ -25,7 +25,6 @@ package c13
 
 import (
 	"bufio"
-	"bytes"
 	"crypto/ecdsa"
 	"encoding/hex"
 	"encoding/json"
@@ -557,6 +556,3 @@ func tailLines(lines []string, n int) string {
 	}
 	return strings.Join(lines, "\n")
 }
-
-var _ = bytes.Equal
-var _ = testing.Short
